@@ -155,7 +155,7 @@ PROPS = {
         "level_note": "Trusted base: the construction argument for each edit kind (harness/rvmon/src/rg/mutate.rs) and the base "
                       "program compiling. Sampled base programs; every edit kind at every site up to a per-kind bound.",
         "technique": "mutation of typed ASTs into by-construction ill-typed programs; accept/reject + error-kind monitor",
-        "rule": "base programs from rotogen (scalar, aggregate and effects profiles) that compile; 31 edit kinds (type mismatch "
+        "rule": "base programs from rotogen (scalar, aggregate and effects profiles) that compile; 44 edit kinds incl. retargeted match arms and ten out-of-scope-across-sibling-scopes kinds with well-typed controls (type mismatch "
                 "at 8 kinds of typed position, argument count, unknown name, missing/duplicate/unknown field, non-exhaustive "
                 "match, arm after default, negated unsigned, arithmetic on bool, ordering on char, % on floats, ? outside an "
                 "Option function, redeclaration, accept in fn, return in const, assignment to constant/function, recursive "
@@ -402,8 +402,11 @@ PROPS = {
         "technique": "event-log monitor (init events during compile) checked against the generated dependency DAG",
         "rule": "random DAGs of 2-12 constants and 0-8 functions (edges by direct mention, nested block, if branch, method "
                 "call on a constant, function call), printed in random declaration order over 1-4 modules with paths or "
-                "imports; 20% with an injected cycle (self, mutual, through 1-2 functions), 20% with a context read (direct or "
-                "through 1-2 functions), with and without a context type on the runtime; every case is non-trivial",
+                "imports; node values travel through random aggregate value shapes (records, enums, Options, lists, strings, "
+                "nested) with copies, comparisons and constant-field reads; recursive function groups of size 1-3 with a "
+                "decreasing depth parameter; random identifier spellings; 20% with an injected cycle (self, mutual, through "
+                "functions / recursive groups), 20% with a context read in 7 syntactic forms (direct, through functions, through "
+                "recursive groups), with and without a context type on the runtime; every case is non-trivial",
         "jobs": [
             {"family": "constorder", "flavour": "release", "cases": {"quick": 12000, "thorough": 300000}},
             {"family": "constorder", "flavour": "debug", "cases": {"quick": 1500, "thorough": 30000}, "args": {"stream": "debug"}},
@@ -452,8 +455,11 @@ PROPS = {
         "level_note": "ALL well-formed histories up to length 4 (quick) / 6 (thorough) from a seeded start state (one runtime, "
                       "package and handle) plus random histories of 8-60 steps; object choices are oldest/newest.",
         "technique": "exhaustive short + random long drop-order histories checked by an ownership model, drop ledger and ASan",
-        "rule": "case < N: one enumerated history over 13 operations (object choice oldest/newest, at most 3 runtimes and 4 "
-                "script versions) of length <= 4 (6 thorough); remaining cases: random histories; evaluations = operations "
+        "rule": "cases 0..407: scenario closure-holds-script-list (one runtime whose registered closures store script-made "
+                "lists, 6 shapes x all drop orders of runtime, package, handles, clones, into_func closures); then one "
+                "enumerated history each over 18 operations (handles, clones, into_func closures, packages, runtimes; object "
+                "choice oldest/newest, at most 3 runtimes and 4 script versions, two same-typed closures with separate "
+                "captured state per runtime) of length <= 4 (6 thorough); remaining cases: random histories; evaluations = operations "
                 "executed; events = handle calls and live-set comparisons; non-trivial = at least one operation",
         "jobs": [
             {"family": "lifetimes", "flavour": "release", "cases": {"quick": 0, "thorough": 0}},
@@ -480,7 +486,12 @@ PROPS = {
         "technique": "multi-threaded stress with result/log/ledger oracles + rustc accept/reject probes + ThreadSanitizer",
         "rule": "case = one generated program (scalar, aggregate, ownership or effects profile), up to 4 input vectors on which "
                 "it runs to completion, 2/4/8/16 threads x >= 150 (400 thorough) calls each, in half of the cases with 2 "
-                "compiling threads and a dropper in the background; non-trivial = at least one concurrent call compared",
+                "compiling threads and a dropper in the background, threads calling through the shared handle, their own "
+                "clones or their own into_func closures while the package and the original handle are dropped; every 8th case: "
+                "scenario shared-lists (four handles, two shared lists of length 0..200000 in both argument orders, injected "
+                "lock delays, progress-based stuck detector) and every 8th case: scenario shared-runtime (2-16 threads compile "
+                "against, call and drop packages of one runtime with 3-48 same-typed closures owning tracked state); "
+                "non-trivial = at least one concurrent call compared",
         "jobs": [
             {"family": "concurrent", "flavour": "release", "cases": {"quick": 600, "thorough": 12000}, "shards": 4,
              "case_timeout": 120},
